@@ -137,12 +137,15 @@ def sample_std(xs):
 
 
 def max_drawdown_of(balances):
-    """most negative relative distance of the equity from its running peak; the starting balance is the first peak"""
-    peak = balances[0]
+    """most negative relative distance of the compounded daily-return curve from its running peak; the curve starts at 1
+    (the starting balance), which is the first peak"""
+    curve = 1
+    peak = 1
     worst = 0
-    for b in balances:
-        peak = b if b > peak else peak
-        dd = b / peak - 1
+    for x in returns_of(balances):
+        curve = curve * (1 + x)
+        peak = curve if curve > peak else peak
+        dd = curve / peak - 1
         worst = dd if dd < worst else worst
     return worst
 
@@ -184,3 +187,52 @@ def omega_of(balances):
 
 def calmar_of(balances):
     return cagr_of(balances) / abs(max_drawdown_of(balances))
+
+
+# metric key -> defining expression over (pnls, types, fees, holds, start, finish); evaluated symbolically by the proof
+# harness and natively by the replay (same text)
+TRADE_METRICS = {
+    'total': 'len(pnls)',
+    'total_winning_trades': 'count_pos(pnls)',
+    'total_losing_trades': 'count_neg(pnls)',
+    'win_rate': 'win_rate(pnls)',
+    'longs_count': "count_eq(types, 'long')",
+    'shorts_count': "count_eq(types, 'short')",
+    'longs_percentage': "count_eq(types, 'long') / len(types) * 100",
+    'shorts_percentage': "100 - count_eq(types, 'long') / len(types) * 100",
+    'fee': 'total(fees)',
+    'net_profit': 'total(pnls)',
+    'net_profit_percentage': 'total(pnls) / start * 100',
+    'gross_profit': 'sum_pos(pnls)',
+    'gross_loss': 'sum_neg(pnls)',
+    'largest_winning_trade': 'largest_win(pnls)',
+    'largest_losing_trade': 'largest_loss(pnls)',
+    'average_win': 'sum_pos(pnls) / count_pos(pnls) if count_pos(pnls) > 0 else nan',
+    'average_loss': 'abs(sum_neg(pnls) / count_neg(pnls)) if count_neg(pnls) > 0 else nan',
+    'expectancy': 'expectancy(pnls)',
+    'expectancy_percentage': 'expectancy(pnls) / start * 100',
+    'winning_streak': 'streaks(pnls)[0]',
+    'losing_streak': 'streaks(pnls)[1]',
+    'current_streak': 'streaks(pnls)[2]',
+    'average_holding_period': 'total(holds) / len(holds)',
+    'starting_balance': 'start',
+    'finishing_balance': 'finish',
+}
+
+# identities between the reported numbers themselves (m = the reported dict)
+TRADE_IDENTITIES = [
+    ('total-is-winners-plus-losers-plus-breakeven', "m['total'] == m['total_winning_trades'] + m['total_losing_trades'] + count_zero(pnls)"),
+    ('net-profit-is-gross-profit-plus-gross-loss', "m['net_profit'] == m['gross_profit'] + m['gross_loss']"),
+    ('longs-and-shorts-sum-to-total', "m['longs_count'] + m['shorts_count'] == m['total']"),
+    ('long-and-short-percentages-sum-to-100', "m['longs_percentage'] + m['shorts_percentage'] == 100"),
+]
+
+# ratio key -> standard definition on the daily equity series `balances` (d >= 2 samples, all > 0)
+RATIO_METRICS = {
+    'max_drawdown': 'max_drawdown_of(balances) * 100',
+    'annual_return': 'cagr_of(balances) * 100',
+    'sharpe_ratio': 'sharpe_of(balances)',
+    'sortino_ratio': 'sortino_of(balances)',
+    'omega_ratio': 'omega_of(balances) if sum_neg(returns_of(balances)) < 0 else nan',
+    'calmar_ratio': 'calmar_of(balances) if max_drawdown_of(balances) != 0 else 0',
+}
